@@ -26,7 +26,9 @@ def params_for(rng, quick):
     return dict(odcid_len=rng.choice([8, 8, 12, 20]), c_cid_len=rng.choice(CIDLENS), s_cid_len=rng.choice(CIDLENS),
                 pnlen={"c": rng.choice([1, 2, 3, 4]), "s": rng.choice([1, 2, 3, 4])}, pn_gaps=rng.choice([None, "small", "big"]),
                 varint_w=rng.choice([None, None, 2, 4, 8]), cid_switch=rng.random() < 0.4, ipv=rng.choice([4, 6]),
-                ch_pad=rng.choice([0, 60, 300]), tp_grease=rng.random() < 0.2)
+                ch_pad=rng.choice([0, 60, 300]), tp_grease=rng.random() < 0.2,
+                l2=rng.choice([{}, {}, {}, {"ip6_ext": 1}, {"ip4_opts": 1}, {"eth_pad": 1}]),
+                init_token=rng.choice([0, 0, 5, 37]), len_width=rng.choice([None, 2, 4, 8]))
 
 
 def _one(job):
@@ -121,7 +123,7 @@ def run(chk):
             raise Exception("replay failed in the harness: " + res["machinery"])
         chk.evaluations += 1
         b = res["b"]
-        chk.distinct.add(json.dumps([b["suite"], b["first"], b["split"], b["twoPkts"], b["retry"], b["zrtt"], b["coalesce"], b["cfApp"],
+        chk.distinct.add(json.dumps([b["suite"], b["first"], b["split"], b["twoPkts"], b["retry"], b["zrtt"], b["coalesce"], b["cfApp"], b.get("sfApp"),
                                      [[(p["t"], p["gen"], [f["ft"] + str(f["a"]) for f in p["frames"]]) for p in d["pkts"]] for d in b["hist"]],
                                      res["params"]], sort_keys=True))
         chk.sample(dict(suite=b["suite"], first_offered=b["first"], ch_split=b["split"], retry=b["retry"], zero_rtt=b["zrtt"],
